@@ -12,9 +12,9 @@
 #include <string.h>
 
 static ref_arena RA;
-enum { D_TYPE, D_CTX, D_CONTENT, D_ENC, D_LFORM, D_IFORM, D_BW, D_PAGES, D_CODEC, D_CRC, D_STATS, D_DOFS, D_UNKNOWN, D_TFORM, D_PATTERN, D_NRG, D_UNSUP, ND };
-static const int DSZ[ND] = { 8, 8, 12, 3, 7, 7, 7, 4, 9, 2, 7, 2, 33, 4, 7, 2, 10 };
-static const char* DN[ND] = { "type", "ctx", "content", "enc", "level_form", "index_form", "index_bw", "pages", "codec", "crc", "stats", "dict_offset", "unknown", "thrift_form", "pattern", "row_groups", "unsupported" };
+enum { D_TYPE, D_CTX, D_CONTENT, D_ENC, D_LFORM, D_IFORM, D_BW, D_PAGES, D_CODEC, D_CRC, D_STATS, D_DOFS, D_UNKNOWN, D_TFORM, D_PATTERN, D_NRG, D_UNSUP, D_LOGICAL, D_ABSENT, ND };
+static const int DSZ[ND] = { 8, 8, 12, 3, 7, 7, 7, 4, 9, 2, 7, 2, 33, 4, 7, 2, 10, 7, 2 };
+static const char* DN[ND] = { "type", "ctx", "content", "enc", "level_form", "index_form", "index_bw", "pages", "codec", "crc", "stats", "dict_offset", "unknown", "thrift_form", "pattern", "row_groups", "unsupported", "logical_type", "absent_levels_announced_bit_packed" };
 static const char* UNSUP[] = { "", "delta-binary-packed", "delta-length-byte-array", "delta-byte-array", "byte-stream-split", "data-page-v2", "bit-packed-levels", "codec-lzo", "codec-brotli", "codec-99" };
 
 /* valid level sequences for a context, enumerated in a fixed order */
@@ -65,6 +65,7 @@ static void build(const int* ch, rfile_t* f, const lvseq_t* explicit_seq) {
     f->dict_offset_present = ch[D_DOFS] == 0; f->data_offset_at_dict = ch[D_DOFS] == 1;
     if (ch[D_UNKNOWN]) { f->fl.unknown_kind = (ch[D_UNKNOWN] - 1) % 16 + 1; f->fl.unknown_at_end = (ch[D_UNKNOWN] - 1) / 16; }
     f->fl.tform.long_field_headers = ch[D_TFORM] & 1; f->fl.tform.long_list_headers = (ch[D_TFORM] >> 1) & 1; f->fl.created_by = "ref_pq"; f->fl.kv = ch[D_TFORM] >= 2;
+    f->logical[0] = ch[D_LOGICAL]; f->absent_levels_bit_packed = ch[D_ABSENT] != 0;
     f->pattern = ch[D_PATTERN] >= 4 ? ch[D_PATTERN] + 6 : ch[D_PATTERN]; f->nrg = ch[D_NRG] ? 2 : 1;      /* 4..6 -> patterns 10..12: values repeating with a period of 1, 2, 3 rows */
     switch (ch[D_UNSUP]) { case 1: f->enc[0] = ENC_DELTA_BINARY; break; case 2: f->enc[0] = ENC_DELTA_LENGTH; break; case 3: f->enc[0] = ENC_DELTA_BYTE_ARRAY; break; case 4: f->enc[0] = ENC_BSS; break; case 5: f->v2 = true; break;
                           case 6: f->level_encoding = ENC_BIT_PACKED; break; default: break; }
@@ -145,7 +146,7 @@ static void enumerate(void) {
     mc_rule("C06: files written by the independent reference writer. Stage 1: every valid (repetition, definition) level sequence of up to 5/6 entries for each of 8 nesting contexts (flat required/optional, optional group, repeated leaf, 3-level list, "
             "doubly repeated, required>optional>repeated) under three base layouts. Stage 2: every file with at most 3 (quick) / 4 (thorough) of 17 layout dimensions off the default, each deviating dimension over its whole alphabet: physical type (8 incl. INT96), "
             "nesting context, content, value encoding (PLAIN / PLAIN_DICTIONARY / RLE_DICTIONARY), 7 hybrid forms for levels and for indices, index bit width (minimal..32), page split, codec (5 + the one-literal Snappy form, the Zstd frame without content size, and Snappy/LZ4 streams of a greedy matcher with real copies), CRC, statistics (new/deprecated/both/page), "
-            "dictionary_page_offset present/absent, unknown Thrift fields (16 kinds x 2 positions in every struct), long-form headers, value pattern, row groups, and one unsupported feature (4 encodings, data page v2, BIT_PACKED levels, 3 codec ids). "
+            "dictionary_page_offset present/absent, unknown Thrift fields (16 kinds x 2 positions in every struct), long-form headers, value pattern, row groups, a logical-type annotation of the leaf (date, time and timestamp in every unit, decimal, integer widths, string/json/enum/bson), the parquet-mr convention of announcing a level the column does not have as BIT_PACKED, and one unsupported feature (4 encodings, data page v2, BIT_PACKED levels, 3 codec ids). "
             "Oracle: carquet_column_read_batch returns exactly the stored def levels, rep levels and dense values; for unsupported features: an error or the correct values, never other values and never a silent end of data. "
             "Every reference file is first validated by the reference reader. Non-trivial = every file; distinct by choice-vector hash.");
     mc_assume("/verif/ref writer and reader follow the Parquet specification; they are cross-checked against each other on every generated file");
